@@ -31,6 +31,8 @@ import (
 )
 
 var noRemove bool
+var mix string
+var split bool
 
 func fatal(err error) {
 	fmt.Fprintln(os.Stderr, "c14:", err)
@@ -45,8 +47,10 @@ func main() {
 	ops := flag.Int("ops", 8, "operations per client and segment")
 	segs := flag.Int("segments", 20, "independent segments")
 	blobs := flag.Int("blobs", 3, "universe size")
-	sched := flag.String("sched", "", "deterministic schedule scenario instead of random clients: h11 | h23 | h31 | h20")
+	sched := flag.String("sched", "", "deterministic schedule scenario instead of random clients: h11 | h23 | h31 | h20 | h26b")
 	flag.BoolVar(&noRemove, "noremove", false, "random programs without remove operations")
+	flag.BoolVar(&split, "split", false, "random programs never receive and remove the same blob concurrently: blobs of even index are stored by a sequential preamble and then only removed (never received), the others are only received")
+	flag.StringVar(&mix, "mix", "", "operation mix: '' = all operations; enumrm = client 1 only enumerates (slowly), the others receive/remove")
 	scratch := flag.String("scratch", "", "scratch dir")
 	flag.Parse()
 	log.SetOutput(io.Discard)
@@ -77,6 +81,10 @@ func main() {
 		}
 	case "h20":
 		if err := schedH20(lg, *scratch); err != nil {
+			fatal(err)
+		}
+	case "h26b":
+		if err := schedH26b(lg, *scratch); err != nil {
 			fatal(err)
 		}
 	case "":
@@ -169,13 +177,21 @@ func segment(cfg *stores.Cfg, u *univ.Universe, lg *gate.Log, seed int64, client
 	}
 	defer sys.Close()
 	cp := caps(sys, cfg)
-	mk := func() *drv.Runner { return &drv.Runner{U: u, Sto: sys.Sto, Caps: cp, NoQuiesce: true} }
+	mk := func() *drv.Runner {
+		return &drv.Runner{U: u, Sto: sys.Sto, Caps: cp, NoQuiesce: true, SlowEnum: idx%2 == 0 || mix == "enumrm"}
+	}
 	reset := mk().ResetEvent(cfg.String())
 	reset["pre"] = []any{}
 	reset["seg"] = idx
 	lg.Emit(reset)
 	var wg sync.WaitGroup
 	n := len(u.Blobs)
+	if split {
+		pr := &drv.Runner{U: u, Sto: sys.Sto, Caps: cp}
+		for i := 1; i < n; i += 2 {
+			do(pr, lg, 1, drv.Op{Op: "receive", B: 2 * (1 + i)})
+		}
+	}
 	for c := 1; c <= clients; c++ {
 		wg.Add(1)
 		crng := rand.New(rand.NewSource(seed + int64(c)*7919))
@@ -185,7 +201,31 @@ func segment(cfg *stores.Cfg, u *univ.Universe, lg *gate.Log, seed int64, client
 			for i := 0; i < nops; i++ {
 				var op drv.Op
 				rk := 2 * (1 + crng.Intn(n))
-				switch x := crng.Intn(10); {
+				x := crng.Intn(10)
+				if mix == "enumrm" {
+					if c == 1 {
+						x = 9
+					} else if x%2 == 0 || noRemove {
+						x = 0
+					} else {
+						x = 7
+					}
+				}
+				if split && n >= 2 {
+					// index (rk/2 - 1) odd: removable, pre-stored, never received again; even: receive-only
+					i := crng.Intn(n)
+					switch {
+					case x < 3:
+						i &^= 1
+					case x >= 6 && x < 8:
+						i |= 1
+						if i >= n {
+							i -= 2
+						}
+					}
+					rk = 2 * (1 + i)
+				}
+				switch {
 				case x < 3:
 					op = drv.Op{Op: "receive", B: rk, Src: crng.Intn(3)}
 				case x < 5:
@@ -196,6 +236,13 @@ func segment(cfg *stores.Cfg, u *univ.Universe, lg *gate.Log, seed int64, client
 					op = drv.Op{Op: "remove", Bs: []int{rk}}
 				default:
 					op = drv.Op{Op: "enum", After: crng.Intn(2*n + 2), Limit: 1 + crng.Intn(n+1)}
+					if mix == "enumrm" {
+						op = drv.Op{Op: "enum", After: 0, Limit: n + 2}
+					}
+				}
+				if mix == "enumrm" && c != 1 {
+					// pace the writers so that they are spread over the (slow) enumerations of client 1
+					time.Sleep(time.Duration(crng.Intn(80)) * time.Microsecond)
 				}
 				do(r, lg, c, op)
 			}
@@ -311,6 +358,49 @@ func schedH31(lg *gate.Log, scratch string) error {
 	}
 	sc.Free()
 	if err := finish(lg, 2, rm); err != nil {
+		return err
+	}
+	r2 := &drv.Runner{U: u, Sto: sys.Sto, Caps: r.Caps}
+	do(r2, lg, 1, drv.Op{Op: "fetch", B: a.Rank})
+	do(r2, lg, 1, drv.Op{Op: "stat", Bs: []int{a.Rank}})
+	return nil
+}
+
+// schedH26b: replica (all writes required) uploads to its replicas in parallel and RemoveBlobs removes from all in
+// parallel, with nothing ordering the two: the upload to replica 1 lands (a fetch sees the blob), a RemoveBlobs is
+// acknowledged (a fetch sees it gone), then the upload to replica 2 lands and the receive is acknowledged: the blob
+// is back, on one replica only. No order of the receive and the remove explains the three fetches.
+func schedH26b(lg *gate.Log, scratch string) error {
+	u := univ.Standard(3, 1)
+	cfg, _ := stores.Parse("replica(gate,gate)")
+	plan := gate.NewPlan()
+	sc := gate.NewScheduler()
+	env := &stores.Env{P: plan, D: stores.NewDurable(scratch), Rank: u.RankAny}
+	sys, err := stores.Build(cfg, env)
+	if err != nil {
+		return err
+	}
+	r := &drv.Runner{U: u, Sto: sys.Sto, Caps: drv.Caps{CanRemove: true, SubFetch: "no"}, NoQuiesce: true}
+	a := u.Blobs[1]
+	reset := r.ResetEvent("replica+sched:h26b")
+	reset["pre"] = []any{}
+	lg.Emit(reset)
+	plan.Sched = sc
+	rc := asyncCall(r, lg, 1, drv.Op{Op: "receive", B: a.Rank})
+	if err := sc.WaitParked("r/1.ReceiveBlob", watch); err != nil {
+		return fmt.Errorf("conformance: %v (parked: %v)", err, sc.Parked())
+	}
+	if err := sc.Step("r/0.ReceiveBlob", watch); err != nil {
+		return fmt.Errorf("conformance: %v (parked: %v)", err, sc.Parked())
+	}
+	for _, op := range []drv.Op{{Op: "fetch", B: a.Rank}, {Op: "remove", Bs: []int{a.Rank}}, {Op: "fetch", B: a.Rank}} {
+		ch := asyncCall(r, lg, 2, op)
+		if err := runExcept(sc, lg, 2, ch, "r/1.ReceiveBlob"); err != nil {
+			return err
+		}
+	}
+	sc.Free()
+	if err := finish(lg, 1, rc); err != nil {
 		return err
 	}
 	r2 := &drv.Runner{U: u, Sto: sys.Sto, Caps: r.Caps}
